@@ -53,7 +53,7 @@ def offset_task(ctx):
 
     def start_idx(e_, callee, args, path):
         yield path, I(start, 'i32')
-    e.summaries.append((re.compile(r'as (pinocchio::state::whirlpool::tick_array::TickArray|state::tick_array::TickArrayType)>::start_tick_index$'), start_idx))
+    e.summaries.append((re.compile(r'^<Self as (pinocchio::state::whirlpool::tick_array::TickArray|state::tick_array::TickArrayType)>::start_tick_index$'), start_idx))
     def self_default(e_, callee, args, path):       # `<Self as Trait>::m` inside a trait default method: the default method of the same trait
         m = re.match(r'^<[\w:]+ as (.*)>::(\w+)$', callee)
         yield from e_.run(m.group(1) + '::' + m.group(2), args, path, _top=False)
@@ -63,14 +63,12 @@ def offset_task(ctx):
     anchor_fn = [f for f in e.mir.fns if re.search(ANCHOR + '$', f)]
     assert len(anchor_fn) == 1, anchor_fn
     obls = []
-    import sys, time as _t; _t0 = _t.time()
     off_local = e.mir.find(PINO).debug['offset']
     pin = []
     for p, r in e.run(PINO, [M.Ref(fr0, '_901'), I(tick, 'i32'), I(ts, 'u16')], Path([T.cmp('<=', start, C(MAX_TICK)), T.cmp('>=', start, C(MIN_TICK - 88 * 65535))])):
         acc = e.last_locals.get(off_local)        # `offset` accumulator of the manual division (a constant on each path; absent on the early-return paths)
         pin.append((p, r, acc.t[1] if acc is not None and T.is_c(acc.t) else None))
     n_pairs = 0
-    print('pino paths', len(pin), round(_t.time() - _t0), 's', file=sys.stderr)
     some_seen = none_seen = 0
     import os as _os
     lim = _os.environ.get('C12M_PATHS')
@@ -80,7 +78,6 @@ def offset_task(ctx):
             o = M.Obligation(f'offset:pino:path{i}:no_panic', pp.pc, FALSE, note=pr.msg); o.replay = None; obls.append(o); continue
         for j, (ap, ar) in enumerate(e.run(anchor_fn[0], [M.Ref(fr0, '_900'), I(tick, 'i32'), I(ts, 'u16')], pp)):
             n_pairs += 1
-            if n_pairs % 20 == 0: print('pairs', n_pairs, 'pino path', i, round(_t.time() - _t0), 's', e.stats, file=sys.stderr, flush=True)
             tag = f'offset:pair{i}.{j}'
             if isinstance(ar, Panic):
                 o = M.Obligation(f'{tag}:anchor_no_panic', ap.pc + pre, FALSE, note=ar.msg); o.replay = None; obls.append(o); continue
